@@ -323,6 +323,7 @@ def _cfg_shuffle(tier, seed):
             {"n": 4, "blocks": 4, "n_splits": 2, "test_size": None, "train_size": 0.5, "seed": 2, "balancing": 2},
             {"n": 4, "blocks": 4, "n_splits": 1, "test_size": None, "train_size": 1, "seed": 4, "balancing": 1},
             {"n": 4, "blocks": 3, "n_splits": 1, "test_size": 1, "train_size": 2, "seed": 6, "balancing": 2, "geom": {"spacing": (1.5, 2.5)}},
+            {"n": 5, "blocks": 4, "n_splits": 1, "test_size": 1, "train_size": 2, "seed": 9, "balancing": 3},
             {"n": 5, "blocks": 4, "n_splits": 10, "test_size": 0.1, "seed": 7, "balancing": 10, "defaults": True, "fixed_labels": [0, 1, 2, 3, 3], "geom": {"shape": (2, 3)}},
         ]
     out = []
